@@ -1,7 +1,7 @@
 (* runner.rs: exec() and the arms of the core note language, as an instantiation of the generic
    pos/loop_stack machine (LoopMachine.v).  The machine state is `res song`: a panic / unsupported
    construct / exhausted fuel halts it (like break_flag), so errors propagate to the result. *)
-From Sakura.Model Require Import Base Cursor Length Event Song Token LoopMachine LexCore Tie RunRsv.
+From Sakura.Model Require Import Base Cursor Length Event Song Token LoopMachine LexCore Tie RunRsv Msg.
 From Sakura.Model Require Reserve.
 From Sakura.Model Require Utf8 F32.
 From Sakura.Model Require Cmd.   (* the event shapes of the command arms (property C15): used qualified *)
@@ -117,7 +117,7 @@ Definition exec_harmony_end (s : song) (len : list ch) (qlen : Z) (vel : option 
 
 (* runtime_error *)
 Definition runtime_error (s : song) (msg : list ch) : song :=
-  add_log s (zs "[ERROR](" ++ show_int (s_lineno s) ++ zs ") " ++ msg_en_RuntimeError ++ zs ": " ++ msg).
+  add_log s (zs "[ERROR](" ++ show_int (s_lineno s) ++ zs ") " ++ msg_RuntimeError (s_ja s) ++ zs ": " ++ msg).
 
 (* exec_get_time: TIME(n) is tick n; TIME(m:b:t) = (m - 1 + shift) * beat * numerator + (b - 1) * beat + t *)
 Definition exec_get_time (s : song) (args : list Z) (cmd : list ch) : Z * song :=
@@ -204,12 +204,13 @@ Fixpoint subst_args (i : Z) (args : list (option marg)) (text : list ch) : list 
   | a :: r => subst_args (i + 1) r (replace_all (S (List.length text)) ([35; 63] ++ show_int i) (marg_to_s a) text)
   end.
 
-Definition ls_of_song (s : song) : lexstate := mkLex (s_timebase s) (s_logs s) (s_vars s) (s_rhythm s).
+Definition ls_of_song (s : song) : lexstate := mkLex (s_timebase s) (s_logs s) (s_vars s) (s_rhythm s) (s_ja s).
 (* read_timebase also lets every track that still has the default length (a quarter note of the old time base) follow
    the new one.  Exact for one TimeBase command per lexed text (and for any number of them at the top level, where only
    track 0 exists, with the default length); two TimeBase commands inside one run-time-lexed text are a stated model gap. *)
 Definition follow_timebase (old new : Z) (t : track) : track :=
   if (tr_length t =? old) && negb (old =? new) then tr_set_length t new else t.
+(* (the message language is not written back: the lexer only reads it) *)
 Definition song_with_ls (s : song) (ls : lexstate) : song :=
   let s1 := s_set_tracks s (map (follow_timebase (s_timebase s) (lx_timebase ls)) (s_tracks s)) in
   s_set_rhythm (s_set_vars (s_set_logs (s_set_timebase s1 (lx_timebase ls)) (lx_logs ls)) (lx_vars ls)) (lx_rhythm ls).
@@ -222,7 +223,7 @@ Definition add_events (s : song) (f : Z -> Z -> list event) : song :=
 (* the SysEx arm: no value at all is a runtime error; F0 / F7 are supplied (Cmd.cmd_sysex); the device number is a u8 field *)
 Definition exec_sysex (s : song) (checksum : Z) (args : list Z) : res song :=
   match args with
-  | [] => Ok (runtime_error s (zs "SysEx : " ++ msg_en_ErrorWrongArguments))
+  | [] => Ok (runtime_error s (zs "SysEx : " ++ msg_ErrorWrongArguments (s_ja s)))
   | _ =>
       if SYSEX_MAX <? zlen args then Unsupported U_RUN_SIZE        (* a message beyond any reasonable size *)
       else Ok (add_events s (fun tp _ => Cmd.cmd_sysex tp args (checksum =? 1)))
